@@ -34,6 +34,78 @@ def _enum(model: RepoModel, name: str) -> Dict[str, int]:
     return d
 
 
+def check_candidate_names_agree(model: RepoModel, rep, RID: str):
+    """A method-call statement is accepted as a sink by one function and given its tag by another; both build the list of names the rule
+    name is looked up in.  Whatever the acceptance appends UNCONDITIONALLY (the literal `<receiver>.<method>` of the statement) the
+    tag computation must append unconditionally too -- otherwise a statement is kept as a sink but no rule matches it and its tag is 0."""
+    ta = model.module("taint/taint_analysis.py")
+    ap = ta.classes.get("TaintRuleApplier")
+    acc = ap.methods.get("should_apply_object_call_stmt_sink_rules") if ap else None
+    tag = ap.methods.get("get_sink_tag_by_rules") if ap else None
+    if acc is None or tag is None:
+        raise AnalysisError("TaintRuleApplier.should_apply_object_call_stmt_sink_rules / get_sink_tag_by_rules vanished")
+
+    def appended(f: Func):
+        """{text of appended expression: unconditional?} for appends to a list local that is later used in `rule.name in <list>`"""
+        lists = {c.comparators[0].id for c in walk_no_nested(f.node) if isinstance(c, ast.Compare) and isinstance(c.ops[0], ast.In) and isinstance(c.comparators[0], ast.Name)
+                 and isinstance(c.left, ast.Attribute) and c.left.attr == "name"}
+        cfg = cfg_of(f.node)
+        out = {}
+        for n in cfg.g.nodes:
+            for c in cfg.calls_at(n):
+                if isinstance(c.func, ast.Attribute) and c.func.attr == "append" and isinstance(c.func.value, ast.Name) and c.func.value.id in lists and c.args:
+                    conds = [a for a, t in cfg.conditions_at(n) if not (isinstance(a, ast.Compare) and "operation" in norm(a)) and "node_type" not in norm(a)
+                             and "node.name" not in norm(a)]
+                    in_loop = any(n in body and cfg.kind[h] == "iter" for h, body in cfg.loop_body_nodes.items())
+                    out[norm(c.args[0])] = (not conds and not in_loop) or out.get(norm(c.args[0]), False)
+        return out
+    a_, t_ = appended(acc), appended(tag)
+    key = "taint/taint_analysis.py::get_sink_tag_by_rules[object_call_stmt]::looks the rule name up in the names the acceptance accepts by"
+    missing = sorted(x for x, unc in a_.items() if unc and not t_.get(x, False) and x in t_) + sorted(x for x, unc in a_.items() if unc and x not in t_ and "__init__" not in x)
+    if not a_:
+        rep.unknown(RID, key, ta.rel, acc.node.lineno, "candidate-name list of the acceptance not recognised")
+    elif missing:
+        rep.violation(RID, key, ta.rel, tag.node.lineno,
+                      f"should_apply_object_call_stmt_sink_rules accepts a statement whenever a rule is called `{missing[0]}` (appended unconditionally), but "
+                      f"get_sink_tag_by_rules adds that name only under a condition (or not at all): a call on a receiver that HAS states -- a local "
+                      f"instance, a parameter -- is kept as a sink, no rule matches it in the tag computation, and the flow into it is not reported")
+    else:
+        rep.holds(RID, key, ta.rel, tag.node.lineno, f"unconditional names of the acceptance {sorted(x for x, u in a_.items() if u)} are unconditional in the tag computation")
+
+
+def check_use_positions(model: RepoModel, rep, RID: str):
+    ps = model.module("core/prelim_semantics.py")
+    # every producer numbers a use by its index in the WHOLE used-symbols list of the statement (that is the position the rules' \%argN
+    # are translated to): an enumerate() over a filtered copy of the list shifts every symbol that follows a filtered-out entry
+    n_enum = 0
+    for f_ in ps.all_funcs():
+        for L in walk_no_nested(f_.node):
+            if not (isinstance(L, ast.For) and isinstance(L.iter, ast.Call) and call_name(L.iter) == "enumerate" and L.iter.args and isinstance(L.target, ast.Tuple)
+                    and len(L.target.elts) == 2 and isinstance(L.target.elts[0], ast.Name)):
+                continue
+            posv = L.target.elts[0].id
+            feeds = any(isinstance(c, ast.Call) and any(k.arg == "pos" and isinstance(k.value, ast.Name) and k.value.id == posv for k in c.keywords) for c in ast.walk(L))
+            if not feeds:
+                continue
+            n_enum += 1
+            src = L.iter.args[0]
+            if isinstance(src, ast.Name):
+                ds = [a_.value for a_ in walk_no_nested(f_.node) if isinstance(a_, ast.Assign) and isinstance(a_.targets[0], ast.Name) and a_.targets[0].id == src.id]
+                src = ds[0] if len(ds) == 1 else src
+            key = f"{ps.rel}::{f_.qualname}::use positions are indices of the whole used-symbols list"
+            filtered = next((x for x in ast.walk(src) if isinstance(x, (ast.ListComp, ast.GeneratorExp)) and any(g.ifs for g in x.generators)), None) \
+                or next((x for x in ast.walk(src) if isinstance(x, ast.Call) and call_name(x) == "filter"), None)
+            if filtered is not None:
+                rep.violation(RID, key, ps.rel, L.lineno,
+                              f"{f_.qualname} numbers the uses with enumerate over `{norm(src)[:90]}`, a FILTERED copy of the used symbols: a symbol that comes "
+                              f"after a filtered-out entry (a literal argument) gets a position one too small, so the edge says the tainted value is "
+                              f"argument N-1 -- a sink rule for \\%arg0 then fires for a value passed as the second argument")
+            else:
+                rep.holds(RID, key, ps.rel, L.lineno, f"enumerate({norm(src)[:70]})")
+    if not n_enum:
+        raise AnalysisError("prelim_semantics.py: no enumerate() loop feeding `pos=` of a state-flow edge found")
+
+
 def run(model: RepoModel, rep, tier: str):
     rep.not_decided = ("completeness for containers, closures, globals and multi-file flows; that the state-flow graph contains the edges "
                        "a concrete flow needs; rule name matching against access paths")
@@ -300,6 +372,8 @@ def run(model: RepoModel, rep, tier: str):
                     rep.info("C10.R4", key, TA, n.lineno,
                              f"{name} asks for position -1 (never produced); it falls back to the textual name when the lookup is empty")
 
+    check_use_positions(model, rep, "C10.R4")
+    check_candidate_names_agree(model, rep, "C10.R4")
     # ------------------------------------------------------------------ R5
     enq = pf.methods.get("_enqueue")
     for fn in ("_propagate_from_symbol", "_propagate_from_state", "_propagate_from_stmt"):
